@@ -257,6 +257,29 @@ func (a *Act) sortedAfterCompareSort(st *State, callee *ssa.Function, com *ssa.C
 			cmp, _ = x.Fn.(*ssa.Function)
 		}
 	}
+	cmpArg := com.Args[1]
+	if ct, ok := cmpArg.(*ssa.ChangeType); ok {
+		cmpArg = ct.X // compare.Compare[T] handed over as func(T, T) Order
+	}
+	if cmp == nil && a.isPureFnValue(cmpArg) {
+		// the comparator is a pure function value of the function under verification (a parameter declared `pure`):
+		// the slice is ordered by it, stated through the application of that value
+		sl, ok := types.Unalias(com.Args[0].Type()).Underlying().(*types.Slice)
+		sig, ok2 := types.Unalias(com.Args[1].Type()).Underlying().(*types.Signature)
+		if !ok || !ok2 || sig.Params().Len() != 2 {
+			return
+		}
+		s := a.term(com.Args[0])
+		lh := a.elemHeap(sl.Elem())
+		heap := st.heap(lh.name, lh.sort)
+		at := func(ix string) Term { return hsel(a.u, heap, lh.addr(app("saddr", s, ix))) }
+		*a.top.qnPtr()++
+		i, j := fmt.Sprintf("i!s%d", *a.top.qnPtr()), fmt.Sprintf("j!s%d", *a.top.qnPtr())
+		r := a.applyPure(a.term(cmpArg), []Val{{T: at(j), Typ: sig.Params().At(0).Type()}, {T: at(i), Typ: sig.Params().At(1).Type()}}, sig).T
+		a.u.Trusted["sort.Slice leaves the slice ordered by its comparator (compare.Sort with the pure function value "+cmpArg.Name()+" of "+fnName(a.fn)+")"] = true
+		a.u.Fact(fmt.Sprintf("(forall ((%s Int) (%s Int)) (! (=> (and (<= 0 %s) (< %s %s) (< %s (slen %s))) %s) :pattern (%s %s)))", i, j, i, i, j, j, s, not(eq(r, "(- 1)")), at(i), at(j)))
+		return
+	}
 	if cmp == nil || len(cmp.Params) != 2 {
 		return
 	}
